@@ -50,6 +50,30 @@ class Analysis:
         kf = os.path.join(os.path.dirname(os.path.abspath(__file__)), "known_functions.txt")
         self.known_functions = set(open(kf).read().split()) if os.path.exists(kf) else set()
 
+    def own_functions(self) -> List[FuncInfo]:
+        """Every function of the package, except helpers that the normaliser expanded at *all* of their call sites: their code
+        is analysed where it runs (inside the callers).  For who-may-do-X censuses."""
+        norm = getattr(self, "norm", None)
+        if norm is None or not norm.helpers:
+            return list(self.prog.functions.values())
+        kept = {l.split(" call to ")[1].split(" at line")[0] for l in norm.skipped if " call to " in l}
+        expanded = {l.split(" <- ")[1].split(" (line")[0].replace("generator ", "") for l in norm.log if " <- " in l}
+        out = []
+        for q, f in self.prog.functions.items():
+            if q in norm.helpers and q in expanded and q not in kept and not self._still_called(f):
+                continue
+            out.append(f)
+        return out
+
+    def _still_called(self, f: FuncInfo) -> bool:
+        for g in self.prog.functions.values():
+            if g is f:
+                continue
+            for cs in self.res.calls(g):
+                if cs.callee.func is f and g.qualname not in getattr(self.norm, "helpers", {}):
+                    return True
+        return False
+
     def known(self, f: FuncInfo) -> bool:
         """Functions confirmed on the reference tree are treated as interface atoms by rules that reason about them by
         name; anything else (a helper extracted later) is inlined."""
